@@ -343,8 +343,16 @@ def d5(prog, ctx):
     # duplicate search must compare every pair: no early exit from either loop
     fd = prog.func("src/multimap_resolver.py", "MultimapResolver.find_duplicates")
     loops = [l for l in walk_no_nested(fd) if isinstance(l, ast.For)]
+    if len(loops) == 1 and any(isinstance(x, ast.Compare) and isinstance(x.ops[0], (ast.In, ast.NotIn)) for x in ast.walk(loops[0])):
+        jumps = [x for x in ast.walk(loops[0]) if isinstance(x, (ast.Break, ast.Return))]
+        if jumps:
+            ctx.fail("D5", jumps[0], fd._qualname, src(jumps[0]), "the duplicate search leaves its loop early")
+        else:
+            ctx.ok("D5", "src/multimap_resolver.py:%d" % fd.lineno, "find_duplicates is a single pass over a hash table of seen records "
+                   "(its soundness is the hash/eq contract, rule D8)")
+        return
     if len(loops) < 2:
-        raise AnalysisError("find_duplicates: nested comparison loops not found")
+        raise AnalysisError("find_duplicates: comparison loops not found")
     jumps = [x for l in loops for x in ast.walk(l) if isinstance(x, (ast.Break, ast.Return))]
     if jumps:
         ctx.fail("D5", jumps[0], fd._qualname, src(jumps[0]), "the duplicate search leaves a loop early: with three or more copies of a "
@@ -825,6 +833,87 @@ def local_env(func):
     return env
 
 
+def d8(prog, ctx):
+    """Records compared by the duplicate search: equal records hash equally (hash fields are a subset of the __eq__ fields)."""
+    n = 0
+    for m, q, c in prog.all_classes():
+        meths = prog.methods_of(c, inherited=False)
+        if "__eq__" not in meths:
+            continue
+        n += 1
+        eqf = {x.attr for x in walk_no_nested(meths["__eq__"]) if isinstance(x, ast.Attribute) and isinstance(x.value, ast.Name)
+               and x.value.id == "self"}
+        if "__hash__" not in meths:
+            ctx.ok("D8", "%s:%d" % (m.rel, c.lineno), "%s defines __eq__ over %s and no __hash__ (unhashable: cannot be de-duplicated through a "
+                   "dict/set by mistake)" % (c.name, sorted(eqf)))
+            continue
+        hf = {x.attr for x in walk_no_nested(meths["__hash__"]) if isinstance(x, ast.Attribute) and isinstance(x.value, ast.Name)
+              and x.value.id == "self"}
+        extra = sorted(hf - eqf)
+        if extra:
+            ctx.fail("D8", meths["__hash__"], "%s.__hash__" % c.name, "hash over %s, __eq__ over %s" % (sorted(hf), sorted(eqf)),
+                     "%s.__hash__ depends on %s, which __eq__ ignores: two records that compare equal (the same alignment seen in two "
+                     "sub-regions differs exactly in such a field) land in different hash buckets, so a dict/set based duplicate search "
+                     "keeps both and the read is reported twice" % (c.name, extra))
+        else:
+            ctx.ok("D8", "%s:%d" % (m.rel, meths["__hash__"].lineno), "%s: hash fields %s are a subset of the __eq__ fields" % (c.name, sorted(hf)))
+    ctx.floor("D8", "classes defining __eq__", n, 1)
+
+
+def d9(prog, ctx):
+    """Every multimap strategy the program can select removes sub-region duplicates before it suspends anything."""
+    MR = "src/multimap_resolver.py"
+    iq = prog.module("isoquant.py")
+    values = {}
+    for q, f in iq.functions.items():
+        for st in walk_no_nested(f):
+            if isinstance(st, ast.Assign) and any(dotted(t) == "args.multimap_strategy" for t in st.targets):
+                for x in ast.walk(st.value):
+                    if isinstance(x, ast.Constant) and isinstance(x.value, str):
+                        values.setdefault(x.value, st)
+                if isinstance(st.value, ast.Attribute) and dotted(st.value).startswith("args."):
+                    values.setdefault("<user option %s>" % dotted(st.value), st)
+    if not values:
+        raise AnalysisError("isoquant.py: no assignment of a strategy name to args.multimap_strategy found")
+    cls = prog.cls(MR, "MultimapResolver")
+    meths = prog.methods_of(cls, inherited=False)
+    calls = {}
+    for name, f in meths.items():
+        calls[name] = {c.func.attr for c in walk_no_nested(f) if isinstance(c, ast.Call) and isinstance(c.func, ast.Attribute)
+                       and dotted(c.func.value) in ("self", "MultimapResolver") and c.func.attr in meths}
+
+    def reaches(name, seen=()):
+        if name == "find_duplicates":
+            return True
+        return any(reaches(x, seen + (name,)) for x in calls.get(name, ()) if x not in seen)
+    res = meths["resolve"]
+    branches = {}
+    for i in [x for x in walk_no_nested(res) if isinstance(x, ast.If)]:
+        mm = re.search(r"self\.strategy == MultimapResolvingStrategy\.(\w+)", src(i.test))
+        if mm:
+            branches[mm.group(1)] = i
+    for v, st in sorted(values.items()):
+        if v.startswith("<user option"):
+            todo = sorted(branches)
+        elif v not in branches:
+            ctx.fail("D9", st, "set_additional_params", src(st)[:80], "strategy %r has no branch in MultimapResolver.resolve" % v)
+            continue
+        else:
+            todo = [v]
+        for b in todo:
+            body = branches[b].body
+            dedup = any(isinstance(c, ast.Call) and isinstance(c.func, ast.Attribute) and c.func.attr in meths and reaches(c.func.attr)
+                        for s_ in body for c in ast.walk(s_))
+            if dedup:
+                ctx.ok("D9", "%s:%d" % (MR, branches[b].lineno), "strategy %s (selectable via %s) resolves through find_duplicates" % (b, src(st)[:50]))
+            else:
+                ctx.fail("D9", st, "set_additional_params", "%s -> resolve() branch %s" % (src(st)[:70], b),
+                         "args.multimap_strategy can be %r, and MultimapResolver.resolve handles that strategy without passing through "
+                         "find_duplicates: an alignment fetched for two sub-regions of a split cluster has two identical records, and this "
+                         "branch suspends them (all) instead of keeping one - a primary alignment is lost only because of where the "
+                         "cluster was cut" % b)
+
+
 def run(prog, ctx):
     ctx.rule("D5", "every mutable attribute initialised by a storage class's __init__ is re-initialised to the same value by its "
                    "reset() (and base reset is chained); the duplicate search loops have no early exit")
@@ -851,6 +940,12 @@ def run(prog, ctx):
                    "[region[0], region[1] + 1)")
     d6(prog, ctx)
     d7(prog, ctx)
+    ctx.rule("D8", "for every class defining __eq__: no __hash__, or the self-attributes read by __hash__ are a subset of those read by __eq__")
+    ctx.rule("D9", "every strategy name that isoquant.py can assign to args.multimap_strategy selects a branch of MultimapResolver.resolve "
+                   "that reaches find_duplicates (class-level call graph): only such a branch keeps one of the identical records an "
+                   "alignment gets in two sub-regions")
+    d8(prog, ctx)
+    d9(prog, ctx)
     ctx.assume("D6/D7 take as given that the coverage bins of a cluster are exactly the 256-bp bins its alignments touch "
                "(AbstractAlignmentStorage.add_alignment) and that stored alignments are sorted by start (BAM order through the priority-queue merger); "
                "where the valleys fall is runtime data and is not decided - only that wherever they fall, the pieces cover the cluster")
